@@ -35,7 +35,7 @@ func (prop) Cases(tier string) int {
 func (prop) Info() fw.Info {
 	return fw.Info{
 		Level: "exploration",
-		Rule: "case i = a batch of K sources (quick 6, thorough 20): repository .sysl files that compile (with their directory tree), generated specifications (as C02, with mixin chains, REST trees, events) and specifications that import an OpenAPI-2 .yaml `as App` twice (so the importer fan-out of parseSpecs runs concurrently); each source is compiled twice sequentially (text + JSON bytes must agree), then G goroutines (8..64), each with its own Parser, compile the sources (same source by several goroutines and different sources at once) with PRNG start offsets (Gosched counts) at GOMAXPROCS in {1,2,4,16}; every concurrent result must equal the sequential bytes; after every join the process-global lexer-state map must be empty (verif hook); the race detector's reports are violations; two cases of the quick tier (every second of the thorough tier) add a churn phase of 64 goroutines x 150 (thorough 600) compilations of tiny specifications, which stresses creation/deletion in the process-global lexer-state map. Non-trivial: the batch has >= 4 distinct sources and >= 16 goroutines; distinct by batch content.",
+		Rule: "case i = a batch of K sources (quick 6, thorough 20): repository .sysl files that compile (with their directory tree), generated specifications (as C02, with mixin chains, REST trees, events) and specifications that import an OpenAPI-2 .yaml `as App` twice (so the importer fan-out of parseSpecs runs concurrently); each source is compiled twice sequentially (text + JSON bytes must agree), then G goroutines (8..64), each with its own Parser, compile the sources (same source by several goroutines and different sources at once) with PRNG start offsets (Gosched counts) at GOMAXPROCS in {1,2,4,16}; every concurrent result must equal the sequential bytes; after every join the process-global lexer-state map must be empty (verif hook); the race detector's reports are violations; two cases of the quick tier (every second of the thorough tier) add a churn phase of 64 goroutines x 150 (thorough 400) compilations of tiny specifications, which stresses creation/deletion in the process-global lexer-state map. Non-trivial: the batch has >= 4 distinct sources and >= 16 goroutines; distinct by batch content.",
 		Assumptions: []string{"text and JSON encoders of pkg/pbutil are the serialisations the property names", "the race detector sees only races on executed paths"},
 		Race:        true,
 		CaseTimeout: 900,
@@ -270,7 +270,7 @@ func (prop) Run(ctx *fw.Ctx, i int) fw.Result {
 		}
 		iters := 150
 		if ctx.Thorough() {
-			iters = 600
+			iters = 400
 		}
 		var wg sync.WaitGroup
 		errs := make([]string, 64)
